@@ -20,10 +20,14 @@ import (
 
 func (f *Flat) SplitBools() *Flat {
 	info := f.Pkg.TypesInfo
+	// tracked: boolean locals, and error locals (valuation: 1 = true / certainly not nil, 2 = false / nil)
 	isBoolLocal := func(o types.Object) bool {
 		v, ok := o.(*types.Var)
 		if !ok || v.IsField() || v.Pkg() == nil || v.Parent() == v.Pkg().Scope() {
 			return false
+		}
+		if isErrorType(v.Type()) {
+			return true
 		}
 		b, ok := v.Type().Underlying().(*types.Basic)
 		return ok && b.Info()&types.IsBoolean != 0
@@ -32,6 +36,15 @@ func (f *Flat) SplitBools() *Flat {
 	constBool := func(e ast.Expr) (bool, bool) {
 		if tv, ok := info.Types[e]; ok && tv.Value != nil && tv.Value.Kind() == constant.Bool {
 			return constant.BoolVal(tv.Value), true
+		}
+		// nil-ness of an error: nil, or a sentinel / a freshly built error
+		if tv, ok := info.Types[e]; ok && tv.Type != nil {
+			if isNilIdent(info, e) {
+				return false, true
+			}
+			if isErrorType(tv.Type) && certainlyNonNilError(info, e) {
+				return true, true
+			}
 		}
 		return false, false
 	}
@@ -151,6 +164,24 @@ func (f *Flat) SplitBools() *Flat {
 				return fl, t
 			}
 		case *ast.BinaryExpr:
+			if x.Op == token.EQL || x.Op == token.NEQ {
+				// err != nil / err == nil on a tracked error local
+				var other ast.Expr
+				if isNilIdent(info, x.Y) {
+					other = x.X
+				} else if isNilIdent(info, x.X) {
+					other = x.Y
+				}
+				if other != nil {
+					if i, ok := idx[objOf(info, other)]; ok && v[i] != 0 {
+						nonNil := v[i] == 1
+						if x.Op == token.NEQ {
+							return nonNil, !nonNil
+						}
+						return !nonNil, nonNil
+					}
+				}
+			}
 			switch x.Op {
 			case token.LAND:
 				at, af := cond3(x.X, v)
@@ -261,6 +292,17 @@ func (f *Flat) SplitBools() *Flat {
 		for _, e := range n.Succs {
 			g.Nodes[e.To].Preds = append(g.Nodes[e.To].Preds, n.ID)
 		}
+	}
+	// what is known on entry to each copy (1 = true / not nil, 2 = false / nil)
+	g.Facts = map[int]map[types.Object]int8{}
+	for k, id := range ids {
+		m := map[types.Object]int8{}
+		for i, o := range vars {
+			if k.v[i] != 0 {
+				m[o] = k.v[i]
+			}
+		}
+		g.Facts[id] = m
 	}
 	// origin tables follow the copies
 	if f.Inl != nil {
